@@ -159,7 +159,7 @@ _add(
         "evaluate_ahb_expression_tree with harness evaluators and through is_valid_expression with the ContentEvaluationResult based evaluators "
         "and a ContextVar setter. Oracle: the structural predicate of the property statement. distinct non-trivial = distinct expression strings"
     ),
-    deciding={"any": {"invalid_expressions": 200, "valid_expressions": 200, "invalid:hint-with-fc": 20, "invalid:neutral-with-rc": 100, "ahb_invalid": 15, "ahb_valid": 15, "is_valid_expression_calls": 30}},
+    deciding={"any": {"invalid_expressions": 200, "valid_expressions": 200, "invalid:hint-with-fc": 20, "invalid:neutral-with-rc": 100, "ahb_invalid": 15, "ahb_valid": 15, "is_valid_expression_calls": 30, "neutral_only_expressions": 100}},
     headline=["valid_expressions", "invalid_expressions", "ahb_valid", "ahb_invalid", "is_valid_expression_calls"],
 )
 
@@ -191,7 +191,7 @@ _add(
         "or the default the base evaluator inserts); absent and empty expression. Oracle: Boolean value of the AST; message present iff "
         "unfulfilled. distinct non-trivial = distinct expression strings mixing >= 2 operator kinds"
     ),
-    deciding={"any": {"expressions": 300, "expressions_mixing_operators": 100, "unfulfilled_results": 1000, "fulfilled_results": 1000, "async_evaluations": 500, "empty_expressions": 2}},
+    deciding={"any": {"expressions": 300, "expressions_mixing_operators": 100, "unfulfilled_results": 1000, "fulfilled_results": 1000, "async_evaluations": 500, "empty_expressions": 2, "evaluations_without_messages": 1000, "async_evaluations_under_random_completion_order": 200}},
     headline=["expressions", "expressions_mixing_operators", "fulfilled_results", "unfulfilled_results", "async_evaluations"],
 )
 
@@ -295,7 +295,7 @@ _add(
         "validate_segment_level. Rewriting happens on the generator's parts, whitespace kept. distinct non-trivial = distinct (tree, assignment) "
         "with SOLL at >= 2 kinds of node"
     ),
-    deciding={"any": {"trees": 50, "relation_instances": 100, "soll_at:G": 20, "soll_at:S": 20, "soll_at:F": 20, "segment_relation_instances": 30}},
+    deciding={"any": {"trees": 50, "relation_instances": 100, "soll_at:G": 20, "soll_at:S": 20, "soll_at:F": 20, "segment_relation_instances": 30, "unknown_decided_by_soll_only": 3}},
     headline=["trees", "relation_instances", "relation_instances_not_implemented", "segment_relation_instances"],
 )
 
